@@ -557,13 +557,21 @@ func (e *Engine) selectStmt(st *State, fr *frame, x *ssa.Select) Value {
 	if hi < 0 {
 		st.abort("done", "select{} blocks forever")
 	}
-	c := st.FreshTerm("select", SInt, 0)
-	st.assertTerm(And(IntLe(IntT64(0), c), IntLe(c, IntT64(int64(hi)))))
 	k := hi
-	for i := 0; i < hi; i++ {
-		if st.Branch(Eq(c, IntT64(int64(i)))) {
-			k = i
-			break
+	if chooser := e.harnessFunc("vhSelectChoice"); chooser != nil {
+		r := st.callFn(chooser, []Value{e.intTerm(big.NewInt(int64(n)), types.Typ[types.Int])}, nil, nil)
+		k = st.concreteInt(r, "select choice")
+		if k < 0 || k > hi {
+			st.unsupported("vhSelectChoice returned %d", k)
+		}
+	} else {
+		c := st.FreshTerm("select", SInt, 0)
+		st.assertTerm(And(IntLe(IntT64(0), c), IntLe(c, IntT64(int64(hi)))))
+		for i := 0; i < hi; i++ {
+			if st.Branch(Eq(c, IntT64(int64(i)))) {
+				k = i
+				break
+			}
 		}
 	}
 	idx := int64(k)
@@ -579,6 +587,17 @@ func (e *Engine) selectStmt(st *State, fr *frame, x *ssa.Select) Value {
 	}
 	st.events = append(st.events, Event{Tag: "select", Args: []Value{res[0]}})
 	return res
+}
+
+func (e *Engine) harnessFunc(name string) *ssa.Function {
+	for p := range e.P.Targets {
+		if pk := e.P.Package(p); pk != nil {
+			if f := pk.Func(name); f != nil {
+				return f
+			}
+		}
+	}
+	return nil
 }
 
 // ---- exploration ----
